@@ -175,6 +175,34 @@ def judge_c02(model, L, out, res):
     v, pt = ask(res, 'attain', fs_, xs)
     if v == 'sat':
         res['fails'].append({'ob': 'attain', 'cause': 'other', 'point': zq.point_json(pt)})
+    # the "consequently" clause, asked directly on a sample: same status and same optimal value (z3 Optimize, exact)
+    if res.get('idx', 0) % 7 == 0 and not res['fails']:
+        so, vo = optimize(S, f, d)
+        sl, vl = optimize(Ln, g, d)
+        res['q'] += 2
+        if 'unknown' not in (so, sl):
+            if so != sl:
+                res['fails'].append({'ob': 'optimum-status-differs', 'cause': 'other', 'source': so, 'linear': sl, 'point': None})
+            elif so == 'ok' and abs(vo - vl) > obj_margin(model, L) * 10:
+                res['fails'].append({'ob': 'optimal-value-differs', 'cause': 'other', 'source': str(vo), 'linear': str(vl), 'point': None})
+
+
+def optimize(constraint, objective, direction):
+    o = z3.Optimize()
+    o.set('timeout', QT)
+    o.add(constraint)
+    h = o.minimize(objective) if direction == 'min' else o.maximize(objective)
+    r = o.check()
+    if r == z3.unsat:
+        return 'infeasible', None
+    if r != z3.sat:
+        return 'unknown', None
+    v = o.lower(h) if direction == 'min' else o.upper(h)
+    if z3.is_rational_value(v) or z3.is_int_value(v):
+        return 'ok', zq.to_frac(v)
+    if 'oo' in str(v):
+        return 'unbounded', None
+    return 'unknown', None   # e.g. an infimum that is not attained (epsilon terms)
 
 
 def judge_c07(model, L, out, res):
@@ -418,6 +446,16 @@ def replay_fail(model, fail):
         else:
             conf = abs(best - fval) > m
         return conf, {'source_objective': str(fval), 'real_best_linear_objective_over_extensions': pin['value'], 'floats_exact': exact}
+    if ob in ('optimum-status-differs', 'optimal-value-differs'):
+        out = run_driver(compile_jobs([{'model': model}]))[0]
+        L = out['lin'].get('ok')
+        if L is None:
+            return False, {'why': 'does not compile on replay'}
+        srcn, aux, env = envs(model, L)
+        d = model['obj']['dir']
+        so, vo = optimize(sem.src_c(model, env), sem.val(model['obj']['e'], env), d)
+        sl, vl = optimize(lin.lin_c(L, env), lin.lin_obj(L, env), d)
+        return (so != sl or (so == 'ok' and vo != vl)), {'source': [so, str(vo)], 'linear': [sl, str(vl)]}
     if ob in ('published-range', 'derived-range', 'subexp-range'):
         out = run_driver(compile_jobs([{'model': model}]))[0]
         if ob == 'subexp-range':
